@@ -21,8 +21,8 @@ ROWS = {
  "insert2_thorough": dict(acts=S("CvKnotInsert"), props=["InsertPreserves"], breaks="BreaksT", degs="DegsT", maxnpts=6, nodesize=3),
  "elevate_quick": dict(acts=S("CvDegreeIncrease"), props=["ElevatePreserves"]),
  "elevate_thorough": dict(acts=S("CvDegreeIncrease"), props=["ElevatePreserves"], pts='"gen", "unit"', wts='"none", "gen", "gen2"', degs="DegsT", maxnpts=6),
- "split_quick": dict(acts=S("CvSplit"), props=["SplitRestricts"], maxnpts=4),
- "split_thorough": dict(acts=S("CvSplit"), props=["SplitRestricts"], pts='"gen", "unit"', wts='"none", "gen", "gen2"', degs="DegsT", maxnpts=6),
+ "split_quick": dict(acts=S("CvSplit", "CvSplitJoin"), props=["SplitRestricts"], maxnpts=4),
+ "split_thorough": dict(acts=S("CvSplit", "CvSplitJoin"), props=["SplitRestricts"], pts='"gen", "unit"', wts='"none", "gen", "gen2"', degs="DegsT", maxnpts=6),
  "remove_quick": dict(acts=S("CvKnotInsert", "CvKnotRemove"), scenario="history", prep=1, depth=2, maxnpts=4, nodesize=2, props=["RemoveExactOrRefused"], wts='"none", "gen", "const"', pts='"gen", "homlin"'),
  "remove_thorough": dict(acts=S("CvKnotInsert", "CvKnotRemove"), scenario="history", prep=1, depth=2, maxnpts=5, degs="DegsT", nodesize=2, props=["RemoveExactOrRefused"], wts='"none", "gen", "gen2"'),
  "remove_narrow_quick": dict(acts=S("CvKnotRemove", "CvDegreeDecrease"), breaks="BreaksN", degs="DegsN", maxnpts=5, nodesize=2, wts='"none", "gen"', pts='"gen", "pos"'),
